@@ -863,3 +863,68 @@ theorem times_model_matches_source :
   constructor <;> decide +kernel
 
 end Wntr.InpTimes
+
+/-! ## Part F — the literal text of the control / rule code is the text the model uses
+
+`Gen.ruleKeywords … Gen.dictTemplates` are extracted on every run (ast) from `_EpanetRule`, `_write_controls`,
+`_read_control_line` (wntr/epanet/io.py) and `Comparison`, `_parse_value`, the `__str__` methods (wntr/network/controls.py).
+The round-trip theorems of Part B are about the model's constants; these theorems say the constants ARE the source's, so an
+edit of a keyword, a prefix, a clause template, a comparison word or a status word breaks a theorem. -/
+namespace Wntr.InpText
+open Wntr.InpSchema
+
+/-- keywords that split rule text, the block dispatch, and the prefixes the writer puts before premises and actions -/
+theorem rule_keywords_match_source :
+    Gen.ruleKeywords = keywords ∧
+    Gen.ruleDispatch = ["ELSE", "IF", "PRIORITY", "RULE", "THEN"] ∧
+    Gen.rulePrefixes = [("cond", Kw.word .if_), ("then", Kw.word .then_), ("else", Kw.word .else_), ("cond", Kw.word .and_), ("cond", Kw.word .or_),
+                        ("then", Kw.word .and_), ("else", Kw.word .and_)] ∧
+    (Gen.rulePrefixes.all fun p => Gen.ruleKeywords.contains p.2) = true := by
+  refine ⟨?_, ?_, ?_, ?_⟩ <;> decide +kernel
+
+/-- the layouts `printAtom` / `printRAction` / `printRule` follow: `<prefix> SYSTEM CLOCKTIME <rel> <clock>`,
+`<prefix> SYSTEM TIME <rel> <h:mm:ss>`, `<prefix> <class> <id> <attribute> <rel> <value>`, `<prefix> <class> <id> <attribute> = <value>`;
+`RULE <id>`, the clauses, ` PRIORITY <p>` only in the templates used when `priority >= 0` -/
+theorem rule_templates_match_source :
+    Gen.clauseTemplates = [("add_control_condition", ["{}", "SYSTEM", "CLOCKTIME", "{}", "{}"]), ("add_control_condition", ["{}", "SYSTEM", "TIME", "{}", "{}"]),
+      ("add_control_condition", ["{}", "{}", "{}", "{}", "{}", "{}"]), ("add_action_on_true", ["{}", "{}", "{}", "{}", "=", "{}"]),
+      ("add_action_on_false", ["{}", "{}", "{}", "{}", "=", "{}"])] ∧
+    Gen.ruleStr = ["RULE {}\n{}\n{}\n{}\n PRIORITY {}\n ; end of rule\n", "RULE {}\n{}\n{}\n PRIORITY {}\n ; end of rule\n",
+      "RULE {}\n{}\n{}\n{}\n ; end of rule\n", "RULE {}\n{}\n{}\n ; end of rule\n"] := by
+  constructor <;> decide +kernel
+
+/-- the layouts `condToks` / `parseCtl` follow: `<type> <link> <setting> AT TIME|CLOCKTIME <time>` and
+`<type> <link> <setting> IF <type> <node> above|below <threshold>`; the reader looks at words 0, 1, 2, 5, 6, 7 -/
+theorem control_templates_match_source :
+    Gen.controlTemplates = [["{ltype}", "{link}", "{setting}", "AT", "{compare}", "{time}"],
+      ["{ltype}", "{link}", "{setting}", "IF", "{ntype}", "{node}", "{compare}", "{thresh}"]] ∧
+    Gen.controlWriteWords = ["CLOCKTIME", "TIME", "above", "below"] ∧
+    Gen.controlReadSlots = [0, 1, 2, 5, 6, 7] ∧
+    (["ABOVE", "BELOW", "IF", "TIME", "CLOCKTIME", "OPEN", "OPENED", "CLOSED", "ACTIVE"].all Gen.controlReadWords.contains) = true := by
+  refine ⟨?_, ?_, ?_, ?_⟩ <;> decide +kernel
+
+/-- **`comparison_words_match_source`**: `Rel.symbol`, `Rel.text` are `Comparison.symbol`, `Comparison.text`; every word
+`Comparison.parse` accepts is read by `parseRel` as the same comparison or not at all; and — on the source's own tables —
+what the writers print (the symbol, the lower-cased text) is among the words the parser accepts for that comparison -/
+theorem comparison_words_match_source :
+    (Gen.relSymbol.all fun p => (relOfName p.1).map Rel.symbol == some p.2) = true ∧
+    (Gen.relText.all fun p => (relOfName p.1).map Rel.text == some p.2.toLower) = true ∧
+    (Gen.relParse.all fun p => p.2.all fun w => parseRel w == relOfName p.1 || parseRel w == none) = true ∧
+    (Gen.relSymbol.all fun p => (Gen.relParse.any fun q => q.1 == p.1 && q.2.contains p.2)) = true ∧
+    (Gen.relText.all fun p => (Gen.relParse.any fun q => q.1 == p.1 && q.2.contains p.2.toLower)) = true ∧
+    Gen.relSymbol.length = 6 ∧ Gen.relText.length = 6 ∧ Gen.relParse.length = 6 := by
+  refine ⟨?_, ?_, ?_, ?_, ?_, ?_, ?_, ?_⟩ <;> decide +kernel
+
+/-- the status words of `_parse_value` are the model's `statusWord` / `parseVal` -/
+theorem status_words_match_source :
+    (Gen.statusValues.all fun p => statusWord p.2 == some p.1.toLower && parseVal (.word p.1.toLower) == some (p.2 : Int)) = true ∧
+    Gen.statusValues.length = 3 := by
+  constructor <;> decide +kernel
+
+/-- the dictionary path (C13): `ControlAction.__str__`, the condition `__str__`s, ` AND ` / ` OR ` -/
+theorem dict_templates_match_source :
+    Gen.dictTemplates = [("ControlAction", ["{} {} {} IS {}"]), ("ValueCondition", ["{} {} {} {} {}"]), ("OrCondition", [" OR "]), ("AndCondition", [" AND "]),
+      ("TimeOfDayCondition", ["SYSTEM CLOCKTIME {:s} {}"]), ("SimTimeCondition", ["SYSTEM TIME {} {}", "% {:.1f} "])] := by
+  decide +kernel
+
+end Wntr.InpText
